@@ -20,7 +20,7 @@ PROP = dict(
     harnesses=[
         H(ST, "c42", "c42_ops", "3-row layout c0 L (x1 external), remove c0 (the link row shifts to the front): survivors' values and all pairwise covariances bit-identical, index layout stays a bijection onto the rows, success iff identifier rules allow", timeout=1200),
         H(ST, "c42", "c42_ops_c", "3-row layout c0 L with external c1, add_clock(c1): duplicate id rejected", timeout=1200),
-        H(ST, "c42", "c42_ops_b", "3-row layout L c0 (x1 external), remove_link: the clock rows shift to the front, values and covariances bit-identical", timeout=1200, timeout_thorough=1800),
+        H(ST, "c42", "c42_ops_b", "3-row layout L c0 (x1 external), remove_link: the clock rows shift to the front, values and covariances bit-identical", timeout=1200, timeout_thorough=1800, native_check="native::native_remove_link_keeps_later_clocks"),
         H(ST, "c42", "c42_time", "progress_time to an earlier time is NonMonotonicTimeProgression; to the current time leaves time, state and covariance bit-identical (312 s)", tier="thorough", timeout=900, timeout_thorough=1800),
     ],
 )
